@@ -443,6 +443,14 @@ fn value_sweep(rep: &Report) -> u64 {
             ("case-then", Box::new(|d| entry_all(Query::select().expr(CaseStatement::new().case(Expr::col(a("a")).gt(1), Expr::val(v.clone())).finally(Expr::val(v.clone()))).from(a("t1")), d))),
             ("divide-by-two", Box::new(|d| entry_all(Query::select().expr(Expr::val(v.clone()).div(2)), d))),
             ("from-values", Box::new(|d| entry_all(Query::select().column(Asterisk).from_values([(v.clone(), 1i32)], a("x")), d))),
+            ("in-tuples", Box::new(|d| entry_all(Query::select().column(a("a")).from(a("t1")).and_where(Expr::tuple([Expr::col(a("s")).into(), Expr::col(a("a")).into()]).in_tuples([(v.clone(), 1i32), (v.clone(), 2i32)])), d))),
+            ("function-table-argument", Box::new(|d| entry_all(Query::select().column(Asterisk).from_function(Func::cust(a("gen")).arg(v.clone()).arg(1), a("g")), d))),
+            ("group-by-having-order-by", Box::new(|d| entry_all(Query::select().expr(Func::count(Expr::col(Asterisk))).from(a("t1")).add_group_by([Func::coalesce([Expr::col(a("s")).into(), Expr::val(v.clone()).into()]).into()]).and_having(Func::max(Expr::col(a("s"))).ne(v.clone())).order_by_expr(Func::coalesce([Expr::col(a("s")).into(), Expr::val(v.clone()).into()]).into(), Order::Desc).limit(2), d))),
+            ("window-partition", Box::new(|d| entry_all(Query::select().expr_window_as(Func::count(Expr::col(Asterisk)), WindowStatement::partition_by_custom("1").add_partition_by(Func::coalesce([Expr::col(a("s")).into(), Expr::val(v.clone()).into()]).into()).order_by_expr(Func::coalesce([Expr::col(a("s")).into(), Expr::val(v.clone()).into()]).into(), Order::Asc).frame_start(FrameType::Rows, Frame::Preceding(2)).to_owned(), a("w")).from(a("t1")), d))),
+            ("join-on-and-subquery", Box::new(|d| entry_all(Query::select().column(a("a")).from(a("t1")).join(JoinType::LeftJoin, a("t2"), Expr::col((a("t2"), a("s"))).eq(v.clone())).and_where(Expr::col(a("a")).in_subquery(Query::select().column(a("c")).from(a("t2")).and_where(Expr::col(a("s")).ne(v.clone())).to_owned())).and_where(Expr::exists(Query::select().expr(Expr::val(v.clone())).to_owned())), d))),
+            ("on-conflict-value", Box::new(|d| entry_all(Query::insert().into_table(a("t1")).columns([a("id"), a("s")]).values_panic([1.into(), Expr::val(v.clone()).into()]).on_conflict(OnConflict::column(a("id")).value(a("s"), Expr::val(v.clone())).to_owned()), d))),
+            ("order-by-field", Box::new(|d| entry_all(Query::select().column(a("a")).from(a("t1")).order_by(a("s"), Order::Field(Values(vec![v.clone(), v.clone()]))), d))),
+            ("like-escape", Box::new(|d| entry_all(Query::select().column(a("a")).from(a("t1")).and_where(Expr::col(a("s")).like(LikeExpr::new("a%").escape('!'))).and_where(Expr::col(a("s")).ne(v.clone())), d))),
         ];
         for (pos, f) in &stmts {
             for d in DIALECTS {
